@@ -68,3 +68,41 @@ func vmObj(c byte, o byte, typ object.Type, exp int64, payloadLen uint64) *objec
 	return obj
 }
 
+
+// exported constructors for harnesses of other packages (shard)
+
+// VerifEpoch is a settable epoch source.
+type VerifEpoch struct{ E uint64 }
+
+func (x *VerifEpoch) CurrentEpoch() uint64 { return x.E }
+
+// VerifNewModelDB returns a metabase on the bbolt model.
+func VerifNewModelDB(ep *VerifEpoch) *DB {
+	db := &DB{cfg: defaultCfg(), mode: mode.ReadWrite, boltDB: bbolt.VerifNewModelDB()}
+	db.log = zap.NewNop()
+	db.epochState = ep
+	db.cfg.containers = vmContainers{}
+	return db
+}
+
+// VerifObj / VerifAddr expose the harness object builders.
+func VerifObj(c byte, o byte, typ object.Type, exp int64, payloadLen uint64) *object.Object {
+	return vmObj(c, o, typ, exp, payloadLen)
+}
+func VerifAddr(c byte, o byte) oid.Address { return vmAddr(c, o) }
+func VerifCID(c byte) cid.ID              { return vmCID(c) }
+func VerifOID(o byte) oid.ID              { return vmOID(o) }
+
+// VerifWrites returns the number of write operations the model database has seen.
+func (db *DB) VerifWrites() int { return bbolt.VerifWrites(db.boltDB) }
+
+// VerifHookSetMode lets shard harnesses model the metabase mode switch (the real
+// one reopens the bbolt file). The real method is renamed to SetMode__real.
+var VerifHookSetMode func(*DB, mode.Mode) error
+
+func (db *DB) SetMode(m mode.Mode) error {
+	if h := VerifHookSetMode; h != nil {
+		return h(db, m)
+	}
+	return db.SetMode__real(m)
+}
